@@ -262,7 +262,7 @@ OPT_T = OPT_Q + [('amp',), ('amp', 'trough'), ('ns.375',), ('trough', 'nc2'), ('
 
 def spaces(tier, seed):
     out = []
-    if tier == 'quick':
+    if True:
         al = S.alphabet(5)
         out.append(ProductSpace('W(4,5)xopts2', S.word_dims(S.alphabet(4), 5) + [OPT_Q[8:]], eval_pipeline,
                                 bounds={'letters': S.alphabet(4), 'option_sets': len(OPT_Q[8:])},
@@ -289,15 +289,17 @@ def spaces(tier, seed):
         ali = [(c, e) for c in ('peak', 'trough') for e in ('compute_features', 'compute_shape_features', 'Bycycle.fit')]
         out.append(ProductSpace('aliased-buffer', S.word_dims(S.alphabet(4), 5) + [ali], eval_aliased,
                                 describe='one pre-allocated array analysed twice with different content (in-place overwrite) x centring x entry point'))
-    else:
-        al = S.alphabet(8, seed, extra=2)
-        out.append(ProductSpace('W(10,5)xopts', S.word_dims(al, 5) + [OPT_T], eval_pipeline,
-                                bounds={'letters': al, 'option_sets': len(OPT_T)}))
-        out.append(ProductSpace('W(6,6)xopts', S.word_dims(S.alphabet(6), 6) + [OPT_Q], eval_pipeline,
-                                bounds={'letters': S.alphabet(6), 'option_sets': len(OPT_Q)}))
+    if tier != 'quick':
+        al = S.alphabet(8, seed, extra=0)
+        out.append(ProductSpace('W(8,5)xopts', S.word_dims(al, 5) + [OPT_Q[:8]], eval_pipeline,
+                                bounds={'letters': al, 'option_sets': 8}))
+        ex = S.alphabet(0, seed, extra=2) + S.alphabet(3)
+        out.append(ProductSpace('Wextra(5,5)xopts', S.word_dims(ex, 5) + [OPT_T], eval_pipeline,
+                                bounds={'letters': ex, 'option_sets': len(OPT_T)}))
+        out.append(ProductSpace('W(6,6)xcentring', S.word_dims(S.alphabet(6), 6) + [[(), ('trough',)]], eval_pipeline,
+                                bounds={'letters': S.alphabet(6)}))
         out.append(ProductSpace('helpers{-1,0,1,2}^6', [[-1, 0, 1, 2]] * 6, eval_helpers,
                                 bounds={'tables_per_signal': len(tiling_tables(6))}))
-        out.append(ProductSpace('bandamp-words', S.word_dims(S.alphabet(8), 2), eval_bandamp))
-        ali = [(c, e) for c in ('peak', 'trough') for e in ('compute_features', 'compute_shape_features', 'Bycycle.fit')]
-        out.append(ProductSpace('aliased-buffer', S.word_dims(S.alphabet(6), 5) + [ali], eval_aliased))
+        out.append(ProductSpace('bandamp-words-8', S.word_dims(S.alphabet(8), 2), eval_bandamp))
+        out.append(ProductSpace('aliased-buffer-W(6,5)', S.word_dims(S.alphabet(6), 5) + [ali], eval_aliased))
     return out
